@@ -1,0 +1,5 @@
+//go:build !verif
+
+package runtime
+
+func verifYield() {}
